@@ -53,12 +53,16 @@ func GenerateWithdrawalHash(bridgeId uint64, l2Sequence uint64, sender string, r
 
 func GenerateNodeHash(a, b []byte) [32]byte {
 	var data [32]byte
+	// build the preimage in a fresh buffer: appending to a caller's slice could write
+	// into its spare capacity (e.g. the next proof of a shared buffer)
+	seed := make([]byte, 0, len(a)+len(b))
 	switch bytes.Compare(a, b) {
 	case 0, 1: // equal or greater
-		data = sha3.Sum256(append(b, a...))
+		seed = append(append(seed, b...), a...)
 	case -1: // less
-		data = sha3.Sum256(append(a, b...))
+		seed = append(append(seed, a...), b...)
 	}
+	data = sha3.Sum256(seed)
 	return data
 }
 
